@@ -344,14 +344,32 @@ def counter_keys(ctx, F, body, routing, prefix, expected):
     for obj, cname in sorted(expected.items()):
         ls = body.local_by_debug(cname)
         lsv = flow.derived(body, set(ls), calls=())        # reborrows handed to a helper such as `id.advance()`
+        # the counter may also be reached as a field of the undestructured projection (`this.next_id`)
+        pidx = None
+        for a_ in F.adts.values():
+            if a_["path"].endswith("::TopicProj") and a_.get("variants") and cname in [f["name"] for f in a_["variants"][0]["fields"]] and a_["path"].rsplit("::", 1)[0] in body.path:
+                pidx = [f["name"] for f in a_["variants"][0]["fields"]].index(cname)
+
+        def counter_place(pl_):
+            if pl_["l"] in lsv and "*" in pl_["p"]:
+                return True
+            ints = [e for e in pl_["p"] if isinstance(e, int)]
+            return pidx is not None and "TopicProj" in body.local_ty(pl_["l"]) and ints[:1] == [pidx] and "*" in pl_["p"]
         writes = []
         wblocks = []
         for i, j, pl, rv, s in body.assigns():
-            if pl["l"] in lsv and "*" in pl["p"]:
+            if counter_place(pl):
                 r = flow.root(body, rv["op"]) if rv["k"] == "use" else ("rv", rv)
                 writes.append(r[0] == "rv" and r[1]["k"] == "binop" and r[1]["op"] in ("AddWithOverflow", "Add") and flow.const_of(r[1]["b"]) == 1)
                 wblocks.append(i)
         ctx.check(bool(writes) and all(writes), prefix + ".counter-monotone", "counter-reset:%s" % cname, "`%s` is only ever incremented by one" % cname, body.span)
-        ins = [c for c in body.calls() if c.name() == "insert" and any(op_local(a) is not None and flow.root_local(body, a) in ls for a in c.args[1:2])]
+        def key_is_counter(a):
+            if op_local(a) is None:
+                return False
+            if flow.root_local(body, a) in ls:
+                return True
+            r_ = flow.root(body, a)
+            return r_[0] == "rv" and r_[1]["k"] == "use" and r_[1]["op"].get("k") in ("copy", "move") and counter_place(r_[1]["op"]["pl"])
+        ins = [c for c in body.calls() if c.name() == "insert" and any(key_is_counter(a) for a in c.args[1:2])]
         ok = bool(ins) and all(any(body.dominates(c.bb, w) and w in flow.reach_avoiding(body, [c.target], []) for w in wblocks) for c in ins)
         ctx.check(ok, prefix + ".counter-advanced", "counter-not-advanced:%s" % cname, "every registration under `%s` is followed by its increment" % cname, (ins or [body])[0].span)
